@@ -967,6 +967,12 @@ class Translator:
                 return h(self, args, kwargs, n)
             raise Unmodelled("isinstance dispatch inside a kernel")
         if name == "hasattr":
+            if isinstance(a0, SelfObj) and isinstance(args[1], str):
+                if args[1] in a0.attrs:
+                    return True
+                if a0.cls is not None:
+                    return a0.cls.lookup(args[1]) is not None or any(args[1] in c.class_attrs for c in a0.cls.mro)
+                return False
             if args[1] == "dtype":
                 return is_sym(a0)
             if args[1] == "__len__":
